@@ -81,6 +81,12 @@ fn res_path(r: RvResult<PathBuf>) -> String {
         Err(e) => errkind(&e),
     }
 }
+fn res_paths(r: RvResult<Vec<PathBuf>>) -> String {
+    match r {
+        Ok(v) => format!("L:{}", v.iter().map(|p| hex(p.to_str().unwrap().as_bytes())).collect::<Vec<_>>().join(",")),
+        Err(e) => errkind(&e),
+    }
+}
 fn res_str(r: RvResult<String>) -> String {
     match r {
         Ok(p) => s_str(&p),
@@ -145,6 +151,33 @@ pub fn dispatch(f: &[&str]) -> Option<String> {
             vfs.mkdir_p(&cwd).unwrap();
             vfs.set_cwd(&cwd).unwrap();
             res_path(vfs.abs(a(3)))
+        },
+        "xdg" => match f[2] {
+            "config_dir" => res_path(user::config_dir()),
+            "cache_dir" => res_path(user::cache_dir()),
+            "data_dir" => res_path(user::data_dir()),
+            "state_dir" => res_path(user::state_dir()),
+            "runtime_dir" => s_path(&user::runtime_dir()),
+            "sys_config_dirs" => res_paths(user::sys_config_dirs()),
+            "sys_data_dirs" => res_paths(user::sys_data_dirs()),
+            "path_dirs" => res_paths(user::path_dirs()),
+            _ => return None,
+        },
+        "getrids" => {
+            let (u, g) = user::getrids(f[2].parse().unwrap(), f[3].parse().unwrap());
+            format!("P:{},{}", u, g)
+        },
+        "vfs_config_dir_m" | "vfs_config_dir_s" => {
+            let vfs = if f[0] == "vfs_config_dir_m" { Vfs::memfs() } else { Vfs::stdfs() };
+            for h in f.get(3).copied().unwrap_or("").split(',').filter(|x| !x.is_empty()) {
+                let p = PathBuf::from(unhex_s(h));
+                vfs.mkdir_p(p.parent().unwrap()).unwrap();
+                vfs.mkfile(&p).unwrap();
+            }
+            match vfs.config_dir(a(2)) {
+                Some(p) => s_path(&p),
+                None => "NONE".into(),
+            }
         },
         "abs_s" => {
             let cwd = a(2);
